@@ -12,9 +12,11 @@ META = {
         'chython/algorithms/standardize/molecule.py: check_valence',
     ],
     'bounds': {
-        'quick': 'star environments: centre in {B, C, N, O, F, Si, P, S, Cl, Br, I, Se}, charge -2..2, radical flag, 0..3 '
-                 'neighbours as a multiset over orders {1,2,3} x {H, C, N, O, F, S, Cl}; aromatic carbon / hetero-atom cases',
-        'thorough': 'adds As, Al, Fe, Cu, Zn; charge -4..4; up to 4 neighbours',
+        'quick': 'star environments: centre in {B, C, N, O, F, Si, P, S, Cl, Br, I, Se}, charge -1..1, radical flag, 0..3 '
+                 'neighbours over orders {1,2,3} x {H, C, N, O, F}; aromatic carbon / hetero-atom cases; organic-subset '
+                 'models with and without radicals',
+        'thorough': 'adds As, Al, Fe, Cu, Zn, H, Li, Mg as centres; charge -2..2; up to 4 neighbours from {H, C, N, O, F} '
+                    '(one centre with 7 neighbour elements took 21 core-minutes: the wider set is outside what is run)',
     },
     'outside_claim': ['more than 4 neighbours; neighbours outside the listed classes (exception environments naming other '
                       'elements are only reached through those classes)',
@@ -246,8 +248,9 @@ def jobs(tier):
         centres += ['As', 'Al', 'Fe', 'Cu', 'Zn', 'H', 'Li', 'Mg']
     J = []
     for c in centres:
-        J.append({'harness': 'star', 'params': {'centre': c, 'kmax': 4 if T else 3, 'cmax': 4 if T else 1,
-                                                'nset': None if T else ['H', 'C', 'N', 'O', 'F']}, 'budget_s': 3000,
+        J.append({'harness': 'star', 'params': {'centre': c, 'kmax': 4 if T else 3, 'cmax': 2 if T else 1,
+                                                'nset': ['H', 'C', 'N', 'O', 'F']},
+                  'budget_s': 3000,
                   'validate_every': 100, 'max_failures': 20, 'weight': 1000})
     J.append({'harness': 'star', 'params': {'centre': 'C', 'kmax': 1, 'cmax': 0, 'falsify': True}, 'twin': True,
               'budget_s': 120, 'max_failures': 1})
